@@ -8,7 +8,7 @@ from sa.report import Cx
 from sa.walker import WalkOptions
 from sa.terms import (Sym, Attr, Sub, App, Num, Fresh, ACmp, AIn, FNot, f_and, f_not, compare, mk_cmp, FTrue, neg, implies)
 from .common import (CORE, COLL, check_atomic, check_forwarding_chain, const_default, strip_versions,
-                     scheduler_paths, exec_sites, classify_iterable, queue_term)
+                     scheduler_paths, exec_sites, classify_iterable, queue_term, check_keyed_insert, check_presence_not_truthiness)
 
 PID = 'C01'
 EXPLANATION = (
@@ -269,8 +269,13 @@ def run(cx: Cx):
         cx.ok('R-GUARD', f"first-strictly-lower insertion on path with {len(scan)} scan iteration(s)",
               where=cx.where(add, e.line), function=add.qualname, path=pl, kind=e.data.get('store'))
     cx.floor('add_system success paths', n_success, 1)
+    # a registration is accepted only for a free id: the registry store is dominated by `s.id not in systems` (a guard on the
+    # object or on the queue lets a second system take over a registered id)
+    check_keyed_insert(cx, add.qualname, RLOC, REG, Attr(s_sym, 'id'), s_sym, unroll=2)
 
     check_remove_pairing(cx)
+    # presence of a system is decided by its id, never by the truth value of the system object
+    check_presence_not_truthiness(cx, [add.qualname, rem.qualname, CORE + 'SystemManager.execute_systems'])
 
     # registry discipline package-wide
     rsites = cx.effects.sites_of(RLOC)
@@ -317,6 +322,10 @@ def run(cx: Cx):
                              f"execute_systems iterates {it!r}, a snapshot kept in a field across calls, on a path that does not "
                              f"rebuild it from the queue: registrations and removals made since it was taken are not honoured (a "
                              f"re-registered system keeps its old place, a replacement never runs)", where=cx.where(fn, site.loop_ev.line))
+            elif kind == 'registry':
+                cx.violation('R-ITER', fn.qualname, 'scheduler-iterates-the-registry',
+                             f"execute_systems iterates {it!r}: the registry is in registration order, not in priority order",
+                             where=cx.where(fn, site.loop_ev.line))
             elif kind in ('reversed', 'sorted', 'set'):
                 cx.violation('R-ITER', fn.qualname, f"scheduler-iterates-{kind}",
                              f"execute_systems iterates {it!r}: systems no longer run in queue order", where=cx.where(fn, site.loop_ev.line))
